@@ -44,8 +44,8 @@ func init() {
 		ID: "C15",
 		Explanation: "Decides structural necessary conditions of token-set resolution: SIBLING(resolvesets): each work-list case of syntax.ResolveSets (any/first/last/precede/follow) instantiates the sets its definition needs, walks the rule in the right direction from the right position, stops after the first non-nullable symbol (polarity of the nullable test) and falls through to the enclosing nonterminal only when the walk was not stopped. MUSTPASS(set-contribution): in the any/first/last cases every rule reaches the rules[r].set test (set-defined nonterminals are empty rules carrying a set). " +
 			"SHARED: an in-place, self-dependent rewrite of TokenSet nodes inside a per-set traversal consults a visited set that outlives one traversal (nodes are shared between named sets). CYCLE: every recursion over *syntax.TokenSet (cyclic for mutually recursive named sets) is cut by a visited set keyed by the node. ALIAS/ESCAPE: scratch buffers of the set closure never alias an operand and buffer-backed slices are not retained. GUARD(complcycle): complement-on-cycle is reported exactly under op==complement ∧ onStack. DTX(setalg) as in C25. " +
-			"Not decided: that the fixpoint equals the definitional sets, Nullable(), reachability from the first input. LOOPSHAPE(first-input): syntax.rules leaves the loop over m.Inputs right after it enqueued the first end-of-input input (sets are computed over what the first input reaches, not over every input).",
-		Rules: []string{"SIBLING(resolvesets)", "MUSTPASS(set-contribution)", "CYCLE", "SHARED", "ALIAS", "ESCAPE", "GUARD(complcycle)", "DTX(setalg)", "GUARD(unionclone)", "LOOPSHAPE(first-input)"},
+			"Not decided: that the fixpoint equals the definitional sets, Nullable(), reachability from the first input. LOOPSHAPE(first-input): syntax.rules leaves the loop over m.Inputs right after it enqueued the first end-of-input input (sets are computed over what the first input reaches, not over every input). GUARD(set-alias): in the second pass over named sets the node whose content is copied into a set's slot is fresh or known not to be another named set's slot (named sets may refer to sets declared later).",
+		Rules: []string{"SIBLING(resolvesets)", "MUSTPASS(set-contribution)", "CYCLE", "SHARED", "ALIAS", "ESCAPE", "GUARD(complcycle)", "DTX(setalg)", "GUARD(unionclone)", "LOOPSHAPE(first-input)", "GUARD(set-alias)"},
 		Run: func(c *Ctx) {
 			ruleRESOLVESETS(c)
 			ruleSETCONTRIB(c)
@@ -58,6 +58,7 @@ func init() {
 			ruleSETALG(c)
 			ruleSETEQ(c)
 			ruleFIRSTINPUT(c)
+			ruleSETALIAS(c)
 		},
 	})
 }
